@@ -175,7 +175,19 @@ func TestRealReactors(t *testing.T) {
 	cache := func() *blockchain.CacheConfig {
 		return &blockchain.CacheConfig{TrieCleanLimit: 0, TrieDirtyLimit: 256, TrieTimeLimit: 5 * time.Minute, SnapshotLimit: 0}
 	}
+	// the nodes log through loggers made before this point or through the root: count the one message that tells what
+	// a stalled restarted validator ran into
+	var ownConflicts atomic.Int64
+	netsim.Quiet()
+	log.Root().SetHandler(log.FuncHandler(func(r *log.Record) error {
+		if strings.Contains(r.Msg, "conflicting vote from ourselves") {
+			ownConflicts.Add(1)
+		}
+		return nil
+	}))
+	defer log.Root().SetHandler(log.DiscardHandler())
 	body := func(t *rapid.T, d *draws) (stalled string) {
+		ownConflicts.Store(0)
 		n := d.sampled([]int{2, 3, 4, 4, 4, 5}, "n")
 		powers := make([]int64, n)
 		for i := range powers {
@@ -503,6 +515,7 @@ func TestRealReactors(t *testing.T) {
 				// grow for this long (blocks take a fraction of a second here) is not coming back
 				if time.Since(lastChange[i]) > stall {
 					verdict = fmt.Sprintf("node %d has not committed anything for %v (height/round/step per node: %s)", i, stall, fp)
+					verdict += fmt.Sprintf("\n \"Found conflicting vote from ourselves\" logged %d times in this run", ownConflicts.Load())
 					// every node's own votes of its current round, every live link's counters, and every view of every node
 					for a := 0; a < n; a++ {
 						if ra := nodeAt(a); ra != nil {
